@@ -6,7 +6,7 @@
 
 use std::collections::{BTreeMap, BTreeSet};
 
-use crate::world::*;
+use super::world::*;
 
 #[derive(Clone, Debug)]
 pub struct Viol {
